@@ -66,6 +66,9 @@ DoPick ==
 
 Spec == Init /\ [][DoPick \/ Next]_vars
 
+\* the lemmas talk about the shape only: once per shape is enough
+LemmasOnce == phase = "pick" => P_C06_lemmas
+
 \* ---- reference values for the spec -> implementation replay --------------------------
 Emit ==
   phase = "init" =>
